@@ -331,8 +331,17 @@ func workerDigest(t *testing.T, pd *PropDef) {
 	base := envU64("WSIM_SEED", 1)
 	n := envInt("WSIM_MAXRUNS", 50)
 	tier := os.Getenv("WSIM_TIER")
+	only := envInt("WSIM_INDEX", -1)
 	for j := 0; j < n; j++ {
+		if only >= 0 && j != only {
+			continue
+		}
 		scn := scenarioFor(pd, base, 0, j, tier)
+		if only >= 0 || envInt("WSIM_TRACEAT", -1) == j {
+			traceOut = os.Stdout
+		} else {
+			traceOut = nil
+		}
 		run := judge(t, pd, scn, nil)
 		fmt.Printf("DIGEST %d %016x %d %d\n", j, run.Digest, run.Stats.Steps, len(run.Findings))
 	}
